@@ -15,7 +15,9 @@ type topKSelector struct {
 
 func newTopKSelector(requireAmt massutil.Amount) *topKSelector {
 	// See policy.go isDust(...)
-	k := blockchain.GetMaxStandardTxSize() / 154
+	// leave room for the version, lock time and outputs so that a transaction
+	// spending k inputs still fits the standard size
+	k := (blockchain.GetMaxStandardTxSize() - 1024) / 154
 	return &topKSelector{
 		k:          k,
 		base:       make([]*txmgr.Credit, 0, k),
